@@ -78,6 +78,28 @@ func (g *Gen) verify() {
 		env["old:"+p.Name()] = v
 		g.paramVals[p.Name()] = v
 	}
+	// a closure verified on its own: captured variables hold arbitrary values of their types
+	// (function-typed ones are governed by the behaviour spec `field <Outer>.<name> : spec`)
+	for _, fv := range fn.FreeVars {
+		pt, ok := fv.Type().(*types.Pointer)
+		if !ok {
+			st.fv[fv] = g.symFor(fv.Type(), fv.Name(), st)
+			continue
+		}
+		cell := &ssa.Alloc{Comment: fv.Name()}
+		v := g.symFor(pt.Elem(), fv.Name(), st)
+		if _, isFn := pt.Elem().Underlying().(*types.Signature); isFn && fn.Parent() != nil {
+			v.FnSpec = fn.Parent().Name() + "." + fv.Name()
+		}
+		st.cells[cell] = v
+		st.fv[fv] = Val{Kind: "ptr", Cell: cell, Ty: fv.Type()}
+		if g.capturedCells == nil {
+			g.capturedCells = map[*ssa.Alloc]bool{}
+		}
+		g.capturedCells[cell] = true
+		env[fv.Name()] = v
+		env["old:"+fv.Name()] = v
+	}
 	g.entryHs = g.hsGet(st)
 	g.env = env
 	for _, r := range c.Requires {
@@ -254,7 +276,7 @@ func assignedElsewhere(fn *ssa.Function, a *ssa.Alloc, except *ssa.Store) bool {
 func (g *Gen) cellByName(st *State, name string) (Val, bool) {
 	var best *ssa.Alloc
 	for a := range st.cells {
-		if a.Comment == name && a.Parent() == g.fn {
+		if a.Comment == name && (g.capturedCells[a] || a.Parent() == g.fn) {
 			if best == nil || a.Pos() > best.Pos() {
 				best = a
 			}
@@ -368,6 +390,9 @@ func (g *Gen) fieldOf(st *State, base, field string, env map[string]Val) Val {
 	}
 	cur := g.lookupName(st, base, env)
 	t := cur.Ty
+	if t == nil && cur.Kind == "ptr" && cur.Cell != nil {
+		t = cur.Cell.Type()
+	}
 	if t == nil {
 		if tt, ok := g.specTypes[base]; ok {
 			t = tt
